@@ -2,6 +2,7 @@ package main
 
 import (
 	"strconv"
+	"strings"
 
 	"github.com/woodsbury/jmespath/internal/simrt"
 )
@@ -107,8 +108,24 @@ func GenC07(seed, index uint64) *Workload {
 		}
 		ntasks = 2 + r.Intn(2)
 	}
+	deep := r.P(1, 60)
+	if deep {
+		// several clients parse deeply nested texts at the same time
+		w.Exprs = nil
+		nexpr = 1 + r.Intn(2)
+		for i := 0; i < nexpr; i++ {
+			n := pick(r, []int{300, 400, 450})
+			op, cl := "(", ")"
+			if r.P(1, 3) {
+				op, cl = "[", "]"
+			}
+			t := strings.Repeat(op, n) + pick(r, []string{"n", "nums[0]", "tag", "`1`"}) + strings.Repeat(cl, n)
+			w.Exprs = append(w.Exprs, ExprSpec{Text: t, Tree: &Expr{K: KRaw, S: t}})
+		}
+		ntasks = 3 + r.Intn(3)
+	}
 	nexpr = addTextVariants(r, w, nexpr)
-	storm := r.P(1, 10)
+	storm := r.P(1, 10) && !deep
 	if storm {
 		// compile storm: many clients compiling many different texts at once
 		ntasks = 4 + r.Intn(4)
@@ -145,6 +162,8 @@ func GenC07(seed, index uint64) *Workload {
 			e := r.Intn(nexpr)
 			op := Op{E: e, D: r.Intn(ndocs), Pol: randPolicy(r)}
 			switch {
+			case deep:
+				op.K = "compile"
 			case isShared(e) && r.P(3, 4):
 				op.K = "esearch"
 			case !storm && r.P(1, 2):
